@@ -281,6 +281,17 @@ impl Local {
         ok
     }
 
+    /// `err <= bound`, where a bound that is not finite (the f64 estimate of the error bound
+    /// overflowed: the case is outside the domain in which a tolerance means anything) is
+    /// counted as skipped instead of silently accepting every result.
+    pub fn within(&mut self, err: f64, bound: f64, key: &str, detail: impl FnOnce() -> String) -> bool {
+        if !bound.is_finite() {
+            self.skip("error bound not finite (overflowing magnitudes): tolerance check not applied");
+            return true;
+        }
+        self.check(err <= bound, key, detail)
+    }
+
     /// Explores pivot sequences of `body` according to `mode`. The body returns a hash of
     /// everything it observed (used by the determinism self-check and the outcome census).
     pub fn explore<F: FnMut(&mut Local) -> u64>(&mut self, mode: &PivotMode, mut body: F) {
